@@ -694,6 +694,21 @@ def forest_cases(u, max_nodes):
             yield [], wrap(chain, project(f, "N")), n, "chain-added"
 
 
+@functools.lru_cache(None)
+def _count_shape(n_top, n_rrows, n_child, has_chain, max_nodes):
+    top = ["r%d" % i for i in range(n_top)]
+    u = {"chain": ["c"] if has_chain else [], "top": top, "rrows": top[:n_rrows],
+         "child": ["k%d" % i for i in range(n_child)]}
+    return sum(1 for _ in forest_cases(u, max_nodes))
+
+
+def case_count(u, max_nodes):
+    """number of cases of a universe; depends only on its shape (the rule's rows come first in `top`)"""
+    if u is None:
+        return 0
+    return _count_shape(len(u["top"]), len(u["rrows"]), len(u["child"]), bool(u["chain"]), max_nodes)
+
+
 # ---------------------------------------------------------------------------------------------------
 # blocks
 def blocks(tier, seed):
@@ -705,8 +720,7 @@ def blocks(tier, seed):
             n = 1
         for idx in range(n):
             try:
-                u = universe(label, idx)
-                size = sum(1 for _ in forest_cases(u, FOREST_N[tier])) if u else 0
+                size = case_count(universe(label, idx), FOREST_N[tier])
             except Exception:  # noqa
                 size = 0
             k = max(1, -(-size // FOREST_SPLIT))
